@@ -122,6 +122,10 @@ func (fc *FnCtx) evalCall(st *State, c *ast.CallExpr, stmt bool) Val {
 			return fc.evalBuiltin(st, c, id.Name)
 		}
 	}
+	// X.lock.Lock() / Unlock() of a monitored lock
+	if fc.monitorCall(st, c) {
+		return VTuple{}
+	}
 	fc.staticRecvName = ""
 	name, pkgPath, fn, recv, kind := fc.calleeInfo(c)
 	staticName := fc.staticRecvName
@@ -612,6 +616,9 @@ func (fc *FnCtx) applyContract(st *State, ct *FuncContract, fn *types.Func, cpos
 		}
 	}
 	for _, cl := range ct.Ensures {
+		if mentionsGhost(cl.Expr, ct) {
+			continue // a clause over the callee's own ghost state says nothing a caller can use
+		}
 		t := fc.specBool(st, cl.Expr, &specEnv{fc: fc, st: st, old: pre, bind: bind, callee: ct})
 		fc.assume(st, t)
 	}
@@ -619,6 +626,21 @@ func (fc *FnCtx) applyContract(st *State, ct *FuncContract, fn *types.Func, cpos
 		return res[0]
 	}
 	return res
+}
+
+// mentionsGhost: does the clause refer to a ghost variable of the contract (or a monitor ghost)?
+func mentionsGhost(e SExpr, ct *FuncContract) bool {
+	s := " " + e.String() + " "
+	for _, g := range ct.Ghosts {
+		for _, pre := range []string{" ", "(", "!", "-"} {
+			for _, post := range []string{" ", ")", ","} {
+				if strings.Contains(s, pre+g.Name+post) {
+					return true
+				}
+			}
+		}
+	}
+	return strings.Contains(s, "lock0_")
 }
 
 func contractKeyDisplay(ct *FuncContract) string {
